@@ -1,6 +1,6 @@
 #!/bin/sh
-# import a sub-agent's seeded change from its scratch worktree: tools/import_seed.sh C08
-P="$1"; W="/tmp/wt-$P"; D="/verif/seeded/S-$P"
+# import a sub-agent's seeded change from its scratch worktree: tools/import_seed.sh C08 [worktree-prefix=wt] [seed-prefix=S]
+P="$1"; WP="${2:-wt}"; SP="${3:-S}"; W="/tmp/$WP-$P"; D="/verif/seeded/$SP-$P"
 mkdir -p "$D"
 git -C "$W" diff -- include > "$D/patch.diff"
 cp "$W/demo/demo.cpp" "$D/demo.cpp"
